@@ -89,6 +89,8 @@ def run(run, suspicious):
                         run.violation("%s with %s (npartitions=%d, fuse=%s) differs from the default-knob result: %s vs %s" % (qn, vn, npart, fuse, _short(vc), _short(bc)), case)
     run.section("knob_grid", cases=ncase, partition_counts=list(nparts))
     presorted(run, rt, pdf)
+    import minmax
+    minmax.presorted_layer(run, rt, quick)
 
 
 def _ident(p):
